@@ -8,6 +8,7 @@ use crate::driver::Step;
 use crate::e1::*;
 use crate::engine::*;
 use crate::model::*;
+use crate::props::util::*;
 use crate::refsem::*;
 use crate::subject::*;
 use serde_json::json;
@@ -19,6 +20,8 @@ fn value_of(name: &str) -> V {
         "Q" => 1,
         "R" => 2,
         "S" => 3,
+        "D" => 4,
+        "D_out" => 5,
         "Zjunk" => 9,
         _ => 7,
     })
@@ -75,7 +78,11 @@ fn oracle() -> Oracle {
                 Some(ri) => item_mismatch(ri, item, proj, None, None).and_then(|m| fail(format!("rows before the fault: item {k}: {m}"))),
                 None => None,
             },
-            Some(d) if calls_of_item.contains(&d) => {
+            Some(_) if seen.deviation_calls.iter().any(|d| calls_of_item.contains(d)) => {
+                let d = *seen.deviation_calls.iter().find(|d| calls_of_item.contains(d)).unwrap();
+                if Some(d) != dev {
+                    st.witness("second_deviation_of_a_history");
+                }
                 // this item's call is the deviating one
                 match &seen.script[d] {
                     Step::Fault(id) => {
@@ -131,6 +138,8 @@ fn programs() -> Vec<P> {
         P { name: "repeat clock row", header: vec!["A", "CLK", "R"], body: vec![Stmt::Repeat(lit(2), vec![l(1), Entry::C, l(2)])], sigs: perm() },
         P { name: "failing expectations", header: vec!["A", "Q", "R"], body: vec![row(vec![l(1), l(9), Entry::Z]), row(vec![l(1), l(1), l(2)])], sigs: std() },
         P { name: "header A R, permuted list", header: vec!["A", "R"], body: vec![row(vec![l(1), l(2)]), row(vec![l(2), Entry::X])], sigs: perm() },
+        // a bidirectional signal next to a real output that is called like its expected column
+        P { name: "bidirectional D next to a real output D_out", header: vec!["A", "D", "D_out", "Q"], body: vec![row(vec![l(1), Entry::Z, Entry::X, l(1)]), row(vec![l(2), l(3), l(5), Entry::X]), row(vec![Entry::Paren(bin(BinOp::Add, name("D_out"), name("D"))), Entry::Z, Entry::X, Entry::X])], sigs: vec![Sig::inp("A", 4, 0), Sig::bidir("D", 4, V::Z), Sig::out("D_out", 4), Sig::out("Q", 4)] },
         P { name: "six rows", header: vec!["A", "Q"], body: (0..6).map(|j| row(vec![l(j), if j % 2 == 0 { Entry::X } else { l(1) }])).collect(), sigs: std() },
     ]
 }
@@ -186,6 +195,41 @@ fn deviations(names: &[String], all_outputs: &[String]) -> Vec<(String, Vec<Stri
         }
     }
     out
+}
+
+/// One loaded `TestCase`, two uses in a row: drivers with different first layouts (every subset
+/// of the outputs, and the full set reversed), with other values, with and without a
+/// `write_input` of their own, and the static iteration. The second use must observe exactly
+/// what it observes on a freshly loaded test (nothing may be remembered in the test).
+pub fn reuse_part(deadline: &Deadline) -> Stats {
+    let progs = programs();
+    par_range("one loaded test used twice: every ordered pair of (first layout x values x driver variant | static iteration) over the 13 curated programs", progs.len() as u64, deadline, |u, st| {
+        let p = &progs[u as usize];
+        let prog = Program { header: p.header.iter().map(|s| s.to_string()).collect(), body: p.body.clone() };
+        let text = text(&prog);
+        let all_outputs: Vec<String> = p.sigs.iter().filter(|s| s.is_out()).map(|s| s.name.clone()).collect();
+        let mut layouts: Vec<Vec<String>> = vec![];
+        for mask in 0..(1u32 << all_outputs.len()) {
+            layouts.push(all_outputs.iter().enumerate().filter(|(i, _)| mask >> i & 1 == 1).map(|(_, n)| n.clone()).collect());
+        }
+        let mut rev = all_outputs.clone();
+        rev.reverse();
+        layouts.push(rev);
+        let mut uses = vec![];
+        for (li, names) in layouts.iter().enumerate() {
+            let ans: Answer = names.iter().map(|n| (n.clone(), value_of(n))).collect();
+            uses.push(Use::dynamic(vec![Step::Ans(ans)], li % 2 == 0));
+        }
+        // other values, and a driver that fails once
+        let full: Answer = all_outputs.iter().map(|n| (n.clone(), V::Num(1))).collect();
+        uses.push(Use::dynamic(vec![Step::Ans(full.clone())], true));
+        uses.push(Use::dynamic(vec![Step::Ans(full.clone()), Step::Fault(7), Step::Ans(full)], true));
+        uses.push(Use { script: vec![], ov: true, static_iteration: true });
+        let mut opts = RunOpts::new(24);
+        opts.repeat_last = true;
+        opts.continue_after_error = true;
+        check_reuse_pairs(st, u, &format!("program '{}'", p.name), &text, &p.sigs, &uses, &opts);
+    })
 }
 
 pub fn run(tier: Tier, seed: u64) -> i32 {
@@ -253,17 +297,18 @@ pub fn run(tier: Tier, seed: u64) -> i32 {
     let mut st = res.stats;
     st.nontrivial = st.states;
     validate_key(&mut st, &res.keys, slice, oracle(), &deadline);
+    st.merge(reuse_part(&deadline));
     st.sample(|| json!({"cases": ncases, "deviation_kinds": deviations(&["Q".to_string(), "R".to_string(), "S".to_string()], &["Q".to_string(), "R".to_string(), "S".to_string()]).iter().map(|d| d.0.clone()).collect::<Vec<_>>()}));
     let meta = CheckMeta {
         id: "C13",
         tier,
         seed,
-        rule: "explicit-state BFS (stateright): 12 curated programs x every first layout (each subset of the output-capable signals, and the full set reversed) x 2 driver variants; at every call index the environment may answer normally, fail (constructor, output-reading and write-only calls), or depart from the first layout in every listed way (drop each entry, empty answer, append a foreign signal / a copy / an unsupplied output, duplicate over either neighbour, swap neighbours, substitute every other signal at every position); deviation budget 2 per history (3 for three programs in the thorough tier); the caller carries on after the error so that later rows are checked too; distinct_nontrivial = unique states".into(),
+        rule: "explicit-state BFS (stateright): 13 curated programs x every first layout (each subset of the output-capable signals, and the full set reversed) x 2 driver variants; at every call index the environment may answer normally, fail (constructor, output-reading and write-only calls), or depart from the first layout in every listed way (drop each entry, empty answer, append a foreign signal / a copy / an unsupplied output, duplicate over either neighbour, swap neighbours, substitute every other signal at every position); deviation budget 2 per history (3 for three programs in the thorough tier); the caller carries on after the error so that later rows are checked too; distinct_nontrivial = unique states".into(),
         assumptions: vec![
             "rows before the deviation are compared with the reference interpreter's fault-free run; the attribution rule is checked against the driver's own log for every returned row".into(),
             "a layout deviation in the discarded answer of a mid-clock call (driver without write_input override) is not specified by the property and is not injected".into(),
         ],
-        required_witnesses: vec!["fault_at_the_constructor_call", "fault_at_an_output_reading_call", "fault_at_a_write_only_call", "layout_deviation_at_a_checked_row", "returned_row_attribution_checked"],
+        required_witnesses: vec!["fault_at_the_constructor_call", "fault_at_an_output_reading_call", "fault_at_a_write_only_call", "layout_deviation_at_a_checked_row", "returned_row_attribution_checked", "one_loaded_test_used_twice_with_different_drivers", "second_deviation_of_a_history"],
         exhaustive_note: "every call index x every deviation for every case".into(),
         e1: true,
     };
